@@ -113,7 +113,11 @@ func (c *Canon) constStr(k *ssa.Const) string {
 	case constant.Int:
 		return k.Value.ExactString()
 	case constant.String:
-		return fmt.Sprintf("%q", constant.StringVal(k.Value))
+		sv := constant.StringVal(k.Value)
+		if strings.Count(sv, " ") >= 2 {
+			return `"…"` // a message text, never part of a rule
+		}
+		return fmt.Sprintf("%q", sv)
 	case constant.Bool:
 		if constant.BoolVal(k.Value) {
 			return "true"
